@@ -337,7 +337,7 @@ func ruleTuples(rule string, tuples []tupleSpec, floor int, only ...string) Rule
 				v    types.Object
 			}
 			var stack []loopCtx
-			perLoop := map[ast.Node]map[string]types.Object{} // loop -> member -> index var
+			perLoop := map[ast.Node]map[string]string{} // loop -> member -> index (variable identity or expression text)
 			var walk func(n ast.Node)
 			walk = func(n ast.Node) {
 				if n == nil {
@@ -417,18 +417,96 @@ func ruleTuples(rule string, tuples []tupleSpec, floor int, only ...string) Rule
 								}
 							}
 						}
+						ikey := ""
+						if io != nil {
+							// a plain rebinding (i := i, as a spliced helper's parameter) is the same index
+							ko := io
+							for d := 0; d < 4; d++ {
+								def, _ := ast.Unparen(singleDefOrNil(info, fd, ko)).(*ast.Ident)
+								if def == nil || info.Uses[def] == nil {
+									break
+								}
+								ko = info.Uses[def]
+							}
+							ikey = fmt.Sprintf("var@%d", ko.Pos())
+						}
+						// an index expression over exactly one enclosing loop variable and constants (n-1-i, remaining-1): the
+						// members of the tuple meet at the same position when they all use the same expression
+						if idx == nil {
+							var vars []types.Object
+							pure := true
+							ast.Inspect(x.Index, func(n ast.Node) bool {
+								if n == nil {
+									return true
+								}
+								switch e := n.(type) {
+								case *ast.Ident:
+									o := info.Uses[e]
+									isLoopVar := false
+									for _, lc := range stack {
+										if lc.v != nil && o == lc.v {
+											isLoopVar = true
+											dup := false
+											for _, v := range vars {
+												if v == o {
+													dup = true
+												}
+											}
+											if !dup {
+												vars = append(vars, o)
+											}
+										}
+									}
+									if !isLoopVar {
+										if tv, ok := info.Types[e]; !ok || tv.Value == nil {
+											if _, isBuiltin := o.(*types.Builtin); !isBuiltin && memberOf(e) == "" {
+												if v, isVar := o.(*types.Var); !isVar || singleDef(info, fd, v) == nil && !isParamOf(info, fd, v) {
+													pure = false
+												}
+											}
+										}
+									}
+								case *ast.CallExpr:
+									if fid, ok := e.Fun.(*ast.Ident); !ok || fid.Name != "len" {
+										pure = false
+									}
+								case *ast.BinaryExpr, *ast.ParenExpr, *ast.BasicLit:
+								default:
+									pure = false
+								}
+								return true
+							})
+							if pure && len(vars) == 1 {
+								for i := len(stack) - 1; i >= 0; i-- {
+									if stack[i].v == vars[0] {
+										encl = &stack[i]
+									}
+								}
+								ikey = "expr:" + types.ExprString(x.Index)
+							}
+						}
 						switch {
-						case idx == nil || io == nil:
+						case encl == nil && (idx == nil || io == nil):
 							c.Bad(rule, key, x.Pos(), fmt.Sprintf("%s is indexed by %s, not by the induction variable of the enclosing loop over the openings/rounds", m, types.ExprString(x.Index)))
 						case encl == nil:
 							c.Bad(rule, key, x.Pos(), fmt.Sprintf("%s is indexed by %s, which is not the variable of any enclosing loop", m, idx.Name))
 						default:
 							if perLoop[encl.node] == nil {
-								perLoop[encl.node] = map[string]types.Object{}
+								perLoop[encl.node] = map[string]string{}
 								loopsSeen++
 							}
-							perLoop[encl.node][m] = io
-							c.OK(rule, key, x.Pos(), fmt.Sprintf("%s[%s]: %s is the induction variable of the enclosing loop", m, idx.Name, idx.Name))
+							mis := ""
+							for om, ok := range perLoop[encl.node] {
+								if ok != ikey && om != m {
+									mis = om
+								}
+							}
+							perLoop[encl.node][m] = ikey
+							if mis != "" {
+								c.Bad(rule, key, x.Pos(), fmt.Sprintf("%s is indexed by %s but %s by a different index of the same loop: the members of the tuple do not meet at the same position", m, types.ExprString(x.Index), mis))
+							} else {
+								c.OK(rule, key, x.Pos(), fmt.Sprintf("%s[%s]: an index of the enclosing loop shared by the tuple", m, types.ExprString(x.Index)))
+							}
 						}
 						walk(x.Index)
 						return
